@@ -11,10 +11,10 @@ import (
 
 // H_C17_Invert: Invert succeeds and negates every line total, tax amount and document total; twice restores them.
 func H_C17_Invert() {
-	// quick: one line with line and document discounts; thorough: 1..2 lines with charges and advances
-	o := skOpts{rule: skRule("rule"), cur: skCurrency(), lines: 1, fixedAtCur: true, rich: vrt.Thorough(), include: false}
-	if vrt.Thorough() {
-		o.lines = skLines()
+	// 1..2 lines with discounts, charges and advances (fixed amounts non-zero: a zero row is dropped by normalisation)
+	o := skOpts{rule: skRule("rule"), cur: skCurrency(), lines: skLines(), fixedAtCur: true, rich: true, include: false, nonzeroFixed: true}
+	if !vrt.Thorough() && o.lines == 2 {
+		o.rich = false // quick: one rich line, or two lines with discounts only; thorough: two rich lines as well
 	}
 	inv := skInvoice(o)
 	if calculate(inv) != nil {
@@ -182,6 +182,16 @@ func H_C17_RemoveIncluded() {
 	}
 	vrt.Assert(inv.Tax.PricesInclude == "", "prices-no-longer-include-tax")
 	t := inv.Totals
+	// a fixed document-level discount or charge gets more decimals when the tax is taken out and is then rounded in
+	// place by the first recalculation (the C04 finding), so the second one starts from other inputs
+	fixedDocRow := false
+	for _, d := range inv.Discounts {
+		fixedDocRow = fixedDocRow || d.Percent == nil
+	}
+	for _, c := range inv.Charges {
+		fixedDocRow = fixedDocRow || c.Percent == nil
+	}
+	vrt.Known("C17-remove-included-fixed-document-row", fixedDocRow)
 	vrt.Assert(vrt.And(t.Payable.Value() == twt.Value(), t.Payable.Exp() == twt.Exp()), "payable-equals-original-total-with-tax")
 	vrt.Assert(t.Payable.Value() == t.TotalWithTax.Value()+amtOrZero(t.Rounding), "residue-is-in-rounding")
 }
